@@ -1,7 +1,6 @@
 package h
 
 import (
-	"bytes"
 	"errors"
 	"fmt"
 	"io"
@@ -99,21 +98,19 @@ func equalU64(a, b []uint64) bool {
 func checkIndex(l *Layout, idx index.Index, kind string, indexesIdentity bool, probes []cid.Cid, loc string) *Violation {
 	secs := l.Payload.Sections
 	indexed := func(c cid.Cid) bool { return indexesIdentity || !IsIdentity(c) }
-	expect := func(c cid.Cid, byDigest bool) []uint64 {
-		var out []uint64
-		for _, s := range secs {
-			if !indexed(s.Cid) {
-				continue
-			}
-			if byDigest {
-				if bytes.Equal(Digest(s.Cid), Digest(c)) {
-					out = append(out, uint64(s.Off))
-				}
-			} else if bytes.Equal(s.Cid.Hash(), c.Hash()) {
-				out = append(out, uint64(s.Off))
-			}
+	byMhMap, byDgMap := map[string][]uint64{}, map[string][]uint64{}
+	for _, s := range secs {
+		if !indexed(s.Cid) {
+			continue
 		}
-		return sortedU64(out)
+		byMhMap[string(s.Cid.Hash())] = append(byMhMap[string(s.Cid.Hash())], uint64(s.Off))
+		byDgMap[string(Digest(s.Cid))] = append(byDgMap[string(Digest(s.Cid))], uint64(s.Off))
+	}
+	expect := func(c cid.Cid, byDigest bool) []uint64 {
+		if byDigest {
+			return sortedU64(byDgMap[string(Digest(c))])
+		}
+		return sortedU64(byMhMap[string(c.Hash())])
 	}
 	keys := append([]cid.Cid(nil), probes...)
 	for _, s := range secs {
@@ -312,6 +309,9 @@ func RunC03(t *Trace, st *Stats) *Violation {
 func GenC03(seed uint64, run int) *Trace {
 	r := RunRng(seed, "C03", "medium", run)
 	spec := GenImageSpec(r, 14)
+	if r.Chance(1, 40) {
+		LongBlocks(r, &spec)
+	}
 	opts := ReadOpts{StoreID: r.Chance(1, 2)}
 	if r.Chance(1, 5) {
 		opts.MaxIdxCid = 40
